@@ -272,6 +272,15 @@ Fixpoint unpack_questions (l : nat) (msg : bytes) (off : N) (acc : list question
 
 Definition testw (w bit : N) : bool := negb (N.land w bit =? 0).
 
+(* Msg.setHdr: the message header fields from the id and the flags word *)
+Definition msg_of_bits (id bits : N) (qs : list question) (an ns ex : list rr) (rc : N) : msg :=
+  {| m_id := id; m_response := testw bits c_QR; m_opcode := (bits / 2048) mod 16;
+     m_aa := testw bits c_AA; m_tc := testw bits c_TC; m_rd := testw bits c_RD; m_ra := testw bits c_RA;
+     m_z := testw bits c_Z; m_ad := testw bits c_AD; m_cd := testw bits c_CD; m_rcode := rc;
+     m_compress := false; m_question := qs; m_answer := an; m_ns := ns; m_extra := ex |}.
+(* OPT.ExtendedRcode: the upper eight bits of the OPT TTL, shifted into place *)
+Definition ext_rcode_of_ttl (ttl : N) : N := ((ttl / 16777216) mod 256) * 16.
+
 (* Msg.Unpack.  A failure inside a record section still leaves the sections
    decoded before it in the message; the model returns them together with the
    error flag (Go returns err and a partially filled Msg). *)
@@ -279,18 +288,14 @@ Definition unpack_msg (bs : bytes) : res (msg * bool (* err *)) :=
   do hd <- match unpack_fixed 12 bs 0 with Ok x => Ok x | _ => Err "header" end;
   let w i := be (take_at bs (2 * i) 2) 0 in
   let bits := w 1 in
-  let mk qs an ns ex rc :=
-    {| m_id := w 0; m_response := testw bits c_QR; m_opcode := (bits / 2048) mod 16;
-       m_aa := testw bits c_AA; m_tc := testw bits c_TC; m_rd := testw bits c_RD; m_ra := testw bits c_RA;
-       m_z := testw bits c_Z; m_ad := testw bits c_AD; m_cd := testw bits c_CD; m_rcode := rc;
-       m_compress := false; m_question := qs; m_answer := an; m_ns := ns; m_extra := ex |} in
+  let mk qs an ns ex rc := msg_of_bits (w 0) bits qs an ns ex rc in
   let rc0 := bits mod 16 in
   if lenN bs =? 12 then Ok (mk [] [] [] [] rc0, false)
   else
     match unpack_questions (N.to_nat (w 2)) bs 12 [] with
     | Ok (qs, off) =>
       let ext ex := match last_opt_index ex O None with
-                    | Some i => N.lor rc0 ((((rr_ttl (nth i ex {| rr_name := []; rr_type := 0; rr_class := 0; rr_ttl := 0; rr_rdlength := 0; rr_kind := ""; rr_data := [] |})) / 16777216) mod 256) * 16)
+                    | Some i => N.lor rc0 (ext_rcode_of_ttl (rr_ttl (nth i ex {| rr_name := []; rr_type := 0; rr_class := 0; rr_ttl := 0; rr_rdlength := 0; rr_kind := ""; rr_data := [] |})))
                     | None => rc0 end in
       match unpack_rr_slice (N.to_nat (w 3)) bs off [] with
       | Ok (an, off) =>
